@@ -5,7 +5,7 @@ Python's ==.  0.0 and -0.0 are different values of ONE type (1/x differs, repr d
 compare equal, so S(-0.0) is served the live S(0.0): the value is lost, two different values are one object, and
 the nutils hash a caller sees for S(-0.0) depends on whether S(0.0) happens to be alive (garbage-collection history).
 
-Run: PYTHONPATH=/repo/src /venv/bin/python findings/C17_intern_tables_keyed_on_python_equality_demo.py   (exit 1 = finding present)
+Run: PYTHONPATH=/repo/src /venv/bin/python findings/C17_python_equal_values_conflated_demo.py   (exit 1 = finding present)
 '''
 import gc, math, sys
 from nutils import types
@@ -28,6 +28,13 @@ neg = S(-0.0)
 h_neg_alone = types.nutils_hash(neg)
 print('hash of S(-0.0) built while S(0.0) was alive :', h_neg_while_pos_alive.hex()[:12])
 print('hash of S(-0.0) built after S(0.0) was freed :', h_neg_alone.hex()[:12], '| sign:', math.copysign(1, neg.a))
-bad = aliased or h_neg_while_pos_alive != h_neg_alone
+# (ii) frozendict.__eq__ adopts the storage of an equal dictionary
+alone = types.nutils_hash(types.frozendict({'k': 0.0}))
+a, b = types.frozendict({'k': 0.0}), types.frozendict({'k': -0.0})
+a == b
+after = types.nutils_hash(a)
+print('hash of frozendict({"k": 0.0}) alone            :', alone.hex()[:12])
+print('hash of frozendict({"k": 0.0}) after == with -0.0:', after.hex()[:12])
+bad = aliased or h_neg_while_pos_alive != h_neg_alone or alone != after
 print('FINDING PRESENT' if bad else 'ok')
 sys.exit(1 if bad else 0)
